@@ -34,7 +34,7 @@ pub fn scratch_root() -> String {
 
 /// Draw the per-run configuration of a generated case (swarm): recorded in the Case so that a
 /// replay does not depend on this function.
-pub fn draw_case(prop: &str, engine: &str, seed: u64) -> Case {
+pub fn draw_case(prop: &str, engine: &str, seed: u64, tier: &str) -> Case {
     let mut r = Rng::new(mix(seed, 0xC0F1));
     let mut c = Case::new(prop, engine, seed);
     c.pagesize = *r.pick(&[1024, 1024, 1024, 1024, 2048, 4096]);
@@ -48,6 +48,9 @@ pub fn draw_case(prop: &str, engine: &str, seed: u64) -> Case {
         }
         "C08" => c.probe = true,
         _ => {}
+    }
+    if tier == "thorough" {
+        c.extra = serde_json::json!({"thorough": true});
     }
     c
 }
@@ -89,6 +92,14 @@ fn tune(prop: &str, cfg: &mut GenCfg, seed: u64) {
             for i in [9usize, 10, 11, 12, 13] {
                 cfg.w_op[i] = cfg.w_op[i].max(3);
             }
+        }
+        "C02" => {
+            // small and large transactions, bucket deletes, growth, page reuse
+            cfg.txs = cfg.txs.clamp(3, 8);
+            cfg.p_reopen = cfg.p_reopen.min(20);
+            cfg.w_op[7] = cfg.w_op[7].max(3);
+            cfg.bulk_len.1 = cfg.bulk_len.1.min(150);
+            cfg.p_ro = 0;
         }
         "C03" => {
             cfg.readers = true;
@@ -148,6 +159,7 @@ pub fn fresh_dir(tag: &str) -> String {
 pub fn execute(case: &Case) -> Verdict {
     match case.engine.as_str() {
         "seq" => exec_seq(case),
+        "crash" => crate::crash::execute(case),
         other => Verdict { harness_error: Some(format!("unknown engine {}", other)), ..Default::default() },
     }
 }
